@@ -333,8 +333,43 @@ func runC03(c *Ctx) {
 			{Name: "head fast-block pointer rewritten", Re: `^called:core\.WriteHeadFastBlockHash\(BlockChain#0\.db, BlockChain#0\.CurrentFastBlock\(\)\.Hash\(\)\)$`},
 			{Name: "state reloaded from disk", Re: `^called:BlockChain#0\.loadLastState\(\)$`},
 		})
+		// the callback that removes an unwound block: its transactions stop resolving (lookup entries deleted while
+		// the body can still be read) and the body is deleted, for every unwound block
+		var delFn *ssa.Function
+		for _, a := range bs.AnonFuncs {
+			if len(callSites(a, `^core\.DeleteBody$`)) > 0 {
+				delFn = a
+			}
+		}
+		if delFn == nil {
+			c.Ob("C03-R4", "BlockChain.SetHead passes a callback that deletes block bodies", c.FnPos(bs), false, "")
+		} else {
+			fd := c.Facts(delFn)
+			var all, withBody []*pstate
+			for _, r := range fd.AllReturns() {
+				all = append(all, r.State)
+				if _, has := hasLit(r.State, mustRe(`^core\.GetBody\w*\(.*\) != nil$`)); has {
+					withBody = append(withBody, r.State)
+				}
+			}
+			c.mustStates("C03-R4", delFn, "return", all, []LitReq{
+				{Name: "the unwound block's body is deleted", Re: `^called:core\.DeleteBody\(fv:[\w#]+\.db, Hash#0, uint64#0\)$`},
+			})
+			c.mustStates("C03-R4", delFn, "return with a stored body", withBody, []LitReq{
+				{Name: "the loop over the unwound block's transactions ran to completion", Re: `^\(phi:rangeindex(~\d+)? \+ 1\) >= len\(core\.GetBody\w*\(.*\)\.Transactions\)$`},
+			})
+			c.MustLoopBack("C03-R4", delFn, `^core\.DeleteTxLookupEntry$`, []LitReq{
+				{Name: "every transaction of an unwound block loses its lookup entry", Re: `^called:core\.DeleteTxLookupEntry\(fv:[\w#]+\.db, core\.GetBody\w*\(.*\)\.Transactions\[.*\]\.Hash\(\)\)$`},
+			})
+			okOrd := false
+			gets, dels := callSites(delFn, `^core\.GetBody\w*$`), callSites(delFn, `^core\.DeleteBody$`)
+			if len(gets) == 1 && len(dels) == 1 {
+				okOrd = instrDominates(gets[0], dels[0])
+			}
+			c.Ob("C03-R4", "the body is read before it is deleted", c.FnPos(delFn), okOrd, "")
+		}
 	})
-	c.Min("C03-R4", 9)
+	c.Min("C03-R4", 13)
 
 	c.Rule("C03-R5", "a block written with state always has body and receipts written; canonical blocks get lookup entries", func() {
 		wbs := c.Fn("core:(*BlockChain).WriteBlockWithState")
